@@ -182,3 +182,5 @@ func vFSList(dir string) []string {
 func vSetBlockSize(n int) {}
 func vClones() int        { return 0 }
 func vSchedFixed(on bool)        {}
+func vUFTable(name string, table []uint32) {}
+func vFSYield(on bool)            {}
